@@ -602,7 +602,8 @@ class WSGIApp:
         try:
             return reference.resolve(self.object_store)
         except (KeyError, TypeError, model.UnexpectedTypeError) as e:
-            raise werkzeug.exceptions.InternalServerError(str(e)) from e
+            # the referenced object isn't (or isn't of the expected type) in this repository: that's the client's concern
+            raise NotFound(str(e)) from e
 
     @classmethod
     def _get_nested_submodel_element(cls, namespace: model.UniqueIdShortNamespace, id_shorts: List[str]) \
